@@ -7,6 +7,7 @@ import MysticVerif.Model.NelderMead
 import MysticVerif.Model.PowellS
 import MysticVerif.Model.ClosedLoop
 import MysticVerif.Model.Brent
+import MysticVerif.Model.Signal
 import MysticVerif.Drv.TermParse
 
 namespace MysticVerif.SolverDrv
@@ -404,6 +405,13 @@ def handle : Handler
     let some (.int mf) := kw? args "maxfun" | return "bad-op"
     let c : Ctl := { evals := e.toNat, gens := g.toNat, maxiter := .val mi.toNat, maxfun := .val mf.toNat }
     return s!"ok warnflag={c.warnflag} msg={showMsg (c.message false)}"
+  | .sym "sig" :: args => Id.run do          -- one delivery of SIGINT: `sig (cb true|false) (script (sol cont call exit x ..))`
+    let cb := ((kw? args "cb").bind Val.asBool?).getD false
+    let some toks := (kw? args "script").bind Val.asList? | return "bad-op"
+    let sw : Val → Signal.Switch := fun v => match v with
+      | .sym "sol" => .sol | .sym "cont" => .cont | .sym "call" => .call | .sym "exit" => .exit | _ => .other
+    let e := Signal.deliver cb (toks.map sw)
+    return s!"ok exit={pB e.earlyExit} consumed={e.consumed} printed={e.printed} called={e.called} unknown={e.unknown} finished={pB e.finished}"
   | .sym "K" :: args => Id.run do            -- twin test of the constraints coupling
     let some su := parseSetup args | return "bad-op"
     let some x := (kw? args "x").bind Val.asFloats? | return "bad-op"
